@@ -15,6 +15,12 @@ use crate::report::{par_map, workers, Report, Tier};
 use crate::seams::{key, Cfg};
 
 pub fn base_block(n: usize, with_gt: bool) -> Result<(World, usize), String> {
+    base_block_with(n, with_gt, false)
+}
+
+/// `sweeps`: every second payment hands its whole input to the payee, so that the payer's key
+/// appears on the input side of the transaction and on none of its outputs
+pub fn base_block_with(n: usize, with_gt: bool, sweeps: bool) -> Result<(World, usize), String> {
     let mut w = World::new(Cfg::new(20, HEARTBEAT));
     let k1 = key(1);
     let mut iss: Vec<(SaitoPublicKey, u64)> = (0..14).map(|i| (k1.public, 1_000_000 + i as u64)).collect();
@@ -32,6 +38,10 @@ pub fn base_block(n: usize, with_gt: bool) -> Result<(World, usize), String> {
     for i in 0..n {
         let s = &slips[i];
         // transaction i pays key P_i; inputs come from K1
+        if sweeps && i % 2 == 0 {
+            txs.push(make_tx(&[s.clone()], &[(key(10 + i as u8).public, s.amount)], &k1, ts + i as u64, format!("sweep{}", i).as_bytes()));
+            continue;
+        }
         txs.push(make_tx(&[s.clone()], &[(key(10 + i as u8).public, 500 + i as u64), (k1.public, s.amount - 500 - i as u64)], &k1, ts + i as u64, format!("p{}", i).as_bytes()));
     }
     if n == 0 {
@@ -131,16 +141,20 @@ pub fn main(tier: Tier, _replay: Option<String>) -> i32 {
     let nmax = if tier.thorough { 11 } else { 8 };
     rep.rule = "for n = 0..nmax payments to distinct keys (with and without golden ticket + fee transaction), every subset of the payee keys as key list (every pattern of adjacent placeholders), plus key lists matching only inputs; pipeline = disk bytes -> decode -> generate -> generate_lite_block -> serialize -> decode -> generate; distinct = (block, subset) pairs".into();
     rep.bounds = json!({"n_max": nmax, "subsets": "all 2^n", "variants": ["plain", "with golden ticket and fee transaction"]});
-    let mut jobs: Vec<(usize, bool)> = vec![];
+    let mut jobs: Vec<(usize, bool, bool)> = vec![];
     for n in 0..=nmax {
-        jobs.push((n, false));
+        jobs.push((n, false, false));
         if n <= nmax.min(9) {
-            jobs.push((n, true));
+            jobs.push((n, true, false));
+        }
+        // payments without change: the payer's key only on the input side
+        if n >= 1 && n <= 5 {
+            jobs.push((n, false, true));
         }
     }
-    let results = par_map(&jobs, workers(), |_, (n, with_gt)| {
+    let results = par_map(&jobs, workers(), |_, (n, with_gt, sweeps)| {
         let mut r = rep.child();
-        let (w, bi) = match base_block(*n, *with_gt) {
+        let (w, bi) = match base_block_with(*n, *with_gt, *sweeps) {
             Ok(x) => x,
             Err(e) => {
                 r.machinery(format!("base block n={} gt={}: {}", n, with_gt, e));
@@ -163,8 +177,8 @@ pub fn main(tier: Tier, _replay: Option<String>) -> i32 {
         keylists.push(("unrelated-key".into(), vec![key(7).public]));
         for (label, kl) in keylists {
             r.evaluations += 1;
-            r.distinct.insert(format!("{}:{}:{}", n, with_gt, label));
-            let ctx = json!({"n": n, "golden_ticket": with_gt, "keylist": label, "tx_order": pay_index});
+            r.distinct.insert(format!("{}:{}:{}:{}", n, with_gt, sweeps, label));
+            let ctx = if *sweeps { json!({"n": n, "golden_ticket": with_gt, "keylist": label, "tx_order": pay_index, "payments_without_change": true}) } else { json!({"n": n, "golden_ticket": with_gt, "keylist": label, "tx_order": pay_index}) };
             let kl2 = kl.clone();
             let lite = match catch(|| full.generate_lite_block(kl2)) {
                 Ok(l) => l,
